@@ -2,7 +2,9 @@
 (***************************************************************************)
 (* C04: for every pattern record (table + facts exported from the real     *)
 (* compile) TLC enumerates EVERY string over the record's alphabet up to   *)
-(* its length bound and EVERY attempt position, computes whether and how   *)
+(* its length bound (plus the record's longer, pattern-directed strings    *)
+(* over the same alphabet) and EVERY attempt position, computes whether    *)
+(* and how                                                                 *)
 (* far the pattern matches there with RegexSem.Attempt (\G origin = the    *)
 (* attempt position), and checks Facts!FactsHold at each real match.       *)
 (***************************************************************************)
@@ -15,7 +17,7 @@ CheckRec(r) ==
   IF ~WF(r.p, O, r.dia) THEN Report("WFERR", [id |-> r.id, text |-> r.text])
   ELSE
   LET e == Elab(r.p, O, r.dia)
-      strs == StrUpTo(r.alpha, r.maxlen)
+      strs == StrUpTo(r.alpha, r.maxlen) \o r.extra     \* exhaustive up to the bound, plus longer pattern-directed strings
       \* all (string index, position) pairs at which the pattern matches, with the violated facts
       bad == {x \in UNION {{<<si, pos>> : pos \in 0..Len(strs[si])} : si \in 1..Len(strs)} :
                 LET s == strs[x[1]]  m == Attempt(e, s, x[2], x[2], r.rtl) IN
